@@ -2,6 +2,8 @@ mod codec;
 mod coqfmt;
 mod out;
 mod rng;
+mod stf;
+mod stfdump;
 mod vm;
 
 pub fn panic_msg(p: &Box<dyn std::any::Any + Send>) -> String {
@@ -16,12 +18,13 @@ fn main() {
         eprintln!("usage: mharness <stream> <tier> <seed> <outdir>");
         std::process::exit(2);
     }
-    std::panic::set_hook(Box::new(|_| {}));
+    if std::env::var("MH_DEBUG").is_err() { std::panic::set_hook(Box::new(|_| {})); }
     let (stream, tier, seed, out) = (&args[1], &args[2], args[3].parse::<u64>().unwrap(), &args[4]);
     let mut em = out::Emitter::new(out);
     match stream.as_str() {
         "codec" => codec::run(tier, seed, &mut em),
         "vm" => vm::run(tier, seed, &mut em),
+        "stf" => stf::run(tier, seed, &mut em),
         _ => { eprintln!("unknown stream"); std::process::exit(2); }
     }
     em.finish();
